@@ -13,23 +13,35 @@ ASSUME = ["tolerance model of spec/ManifTrace.tla (working precision 2^10 u scal
           "uniformity is claimed over the enumerated strata cells and the drawn points, not proved between them",
           "bundles are covered by C11 (bundle = element-wise) composed with this property on the element groups"]
 
-def run(prop, tier, seed, judged, rule):
+ALGO_OPS = {"interp", "phi", "avg", "tisapprox"}
+def run(prop, tier, seed, judged, rule, module="ManifTrace", subsample=None):
     rep = vlib.Report(prop, tier, seed)
     rep.assumptions = list(ASSUME)
     keys = KEYS_T if tier == "thorough" else KEYS_Q
     cells, st = vlib.plan_cells(prop, tier)
     rep.states += st[0]; rep.transitions += st[1]
-    bins = vlib.build_core(keys)
+    if subsample and tier == "quick":
+        # deterministic sub-sample of the enumerated cells (the full product runs in the thorough tier)
+        cells = [c for i, c in enumerate(cells) if (i + seed) % subsample == 0]
     wd = vlib.workdir(prop)
-    plan = os.path.join(wd, "plan.txt"); vlib.write_plan(cells, plan)
-    recs = vlib.record(bins, plan, wd, seed)
+    core = [c for c in cells if c["op"] not in ALGO_OPS]; algo = [c for c in cells if c["op"] in ALGO_OPS]
+    recs = []
+    if core:
+        bins = vlib.build_core(keys)
+        plan = os.path.join(wd, "plan.txt"); vlib.write_plan(core, plan)
+        recs += vlib.record(bins, plan, wd, seed)
+    if algo:
+        wd2 = os.path.join(wd, "algo"); os.makedirs(wd2)
+        bins2 = vlib.build_core(keys, src="rec_algo.cpp", prefix="rec_algo")
+        plan2 = os.path.join(wd2, "plan.txt"); vlib.write_plan(algo, plan2)
+        recs += vlib.record(bins2, plan2, wd2, seed)
     lines = []
     for k, rc, so, ls in recs:
         rep.traces += 1
         if rc != 0:
             raise vlib.ModelError("recorder %s exited with %d: %s" % (k, rc, so[-500:]))
         lines += ls
-    results, st2 = vlib.validate(lines, wd)
+    results, st2 = vlib.validate(lines, wd, module=module)
     rep.states += st2[0]; rep.transitions += st2[1]
     rep.judge(results, judged)
     rep.extra["plan_cells"] = len(cells)
